@@ -79,6 +79,24 @@ class StoreProfile(Profile):
                     continue
                 shadow.create(cfg, s, data)
                 steps.append({"op": "create", "cfg": cfg, "sid": s, "data": data})
+            if rng.random() < 0.08:
+                # a twin under the same parent whose name differs from this one's only by case ('bob' / 'BOB')
+                segs = s.split("/")
+                frees = [i for i, k in enumerate(m.by_name[t].keys) if m.vocab(t, k)[0] == "free" and segs[i].swapcase() != segs[i]]
+                if frees:
+                    i = frees[-1]
+                    segs[i] = segs[i].swapcase() if rng.random() < 0.5 else (segs[i].upper() if segs[i] != segs[i].upper() else segs[i].lower())
+                    s2 = "/".join(segs)
+                    if m.natural_type(s2) == t:
+                        if mirror and all(shadow.can_create(c, s2) == "ok" for c in m.configs):
+                            for c in m.configs:
+                                shadow.create(c, s2, None)
+                            steps.append({"op": "mirror", "sid": s2, "data": None})
+                            run.probes["case_twin_entities"] += 1
+                        elif not mirror and shadow.can_create(cfg, s2) == "ok":
+                            shadow.create(cfg, s2, None)
+                            steps.append({"op": "create", "cfg": cfg, "sid": s2, "data": None})
+                            run.probes["case_twin_entities"] += 1
         return steps
 
     # ------------------------------------------------------------------ common ops
@@ -337,14 +355,18 @@ def gen_search(rng, m, vocab, base, simple=False, allow_last=False, allow_filter
         if r < p_star:
             out[i] = "*"
             feats.add("star")
-        elif (not simple and any(sp in segs[i].strip(sp) for sp in SEPARATORS) and rng.random() < 0.3
+        elif (not simple and any(sp in segs[i].strip(sp) for sp in SEPARATORS) and rng.random() < 0.6
               and m.vocab(tn, t.keys[i])[0] == "free"):
-            # near-miss pair: the value and the value cut at a filename separator, in either order
+            # near-miss pair: the value and the value cut at a filename separator, in either order; often with a
+            # wildcard right after it (the glob of the shorter value then also matches the longer one's files)
             sp = [x for x in SEPARATORS if x in segs[i].strip(x)][0]
             pair = [segs[i], segs[i].rsplit(sp, 1)[0]]
             rng.shuffle(pair)
             out[i] = ",".join(pair)
             feats.add("comma_near_miss")
+            if i + 1 < n and (i + 1) not in keep and rng.random() < 0.5:
+                out[i + 1] = "*"
+                keep = tuple(keep) + (i + 1,)
         elif not simple and r < p_star + 0.12:
             vals = [v for v in (vocab.values(tn, t.keys[i]) or []) if v != segs[i]]
             if vals:
